@@ -172,15 +172,24 @@ COMMON_ASSUME = [
 _sub_cache = {}
 
 
+_in_progress = set()
+
+
 def import_rules(rep, modname, rules, prefix=None, key_prefixes=None):
     """Run another property's rule module on a scratch report (once per process) and copy the instances of the named rules
     into `rep` (same keys, so a violation is reported under this property as well)."""
     import importlib
     import facts as _facts
     key = (modname, rep.tier, tuple(sorted(_facts.ALIAS.items())))
+    if key in _in_progress or modname.upper() == getattr(rep, "pid", None):
+        return 0  # a module further up the import chain: its own rules are being produced there, nothing to copy from a second run
     if key not in _sub_cache:
         sub = Report(modname.upper(), rep.tier)
-        importlib.import_module(modname).run(sub)
+        _in_progress.add(key)
+        try:
+            importlib.import_module(modname).run(sub)
+        finally:
+            _in_progress.discard(key)
         _sub_cache[key] = sub
     sub = _sub_cache[key]
     n = 0
